@@ -56,14 +56,14 @@ theorem txin_ids_eq (i : TxIn) :
   · simp only [h, if_true, entropy_eq, idsOfEntropy_some]
   · simp only [h, if_false, idsOfEntropy_some]
 
-theorem pset_ids_eq (p : PsetInput) :
+theorem pset_ids_eq (p : IssPsetInput) :
     p.issuanceIds H =
-      some (H.comb (entropyOf H ⟨p.previousTxid, PsetInput.plainIndex p.previousOutputIndex⟩
+      some (H.comb (entropyOf H ⟨p.previousTxid, IssPsetInput.plainIndex p.previousOutputIndex⟩
                 (p.issuanceBlindingNonce.getD zero32) (p.issuanceAssetEntropy.getD zero32)) assetLeaf,
-            H.comb (entropyOf H ⟨p.previousTxid, PsetInput.plainIndex p.previousOutputIndex⟩
+            H.comb (entropyOf H ⟨p.previousTxid, IssPsetInput.plainIndex p.previousOutputIndex⟩
                 (p.issuanceBlindingNonce.getD zero32) (p.issuanceAssetEntropy.getD zero32))
               (tokenLeaf p.issuanceValueComm.isSome)) := by
-  simp only [PsetInput.issuanceIds, entropyOf]
+  simp only [IssPsetInput.issuanceIds, entropyOf]
   by_cases h : p.issuanceBlindingNonce.getD zero32 = zero32
   · simp only [h, if_true, entropy_eq, idsOfEntropy_some]
   · simp only [h, if_false, idsOfEntropy_some]
@@ -71,13 +71,13 @@ theorem pset_ids_eq (p : PsetInput) :
 /-! ### the index word of `from_txin` -/
 
 theorem fromTxin_index (t : TxIn) :
-    (PsetInput.fromTxin t).previousOutputIndex =
+    (IssPsetInput.fromTxin t).previousOutputIndex =
       (t.previousOutput.vout ||| (if t.isPegin then 2^30 else 0)) ||| (if t.hasIssuance then 2^31 else 0) := by
-  simp only [PsetInput.fromTxin, PsetInput.fromPrevout]
+  simp only [IssPsetInput.fromTxin, IssPsetInput.fromPrevout]
   cases t.isPegin <;> cases t.hasIssuance <;> simp
 
-theorem fromTxin_txid (t : TxIn) : (PsetInput.fromTxin t).previousTxid = t.previousOutput.txid := by
-  simp only [PsetInput.fromTxin, PsetInput.fromPrevout]
+theorem fromTxin_txid (t : TxIn) : (IssPsetInput.fromTxin t).previousTxid = t.previousOutput.txid := by
+  simp only [IssPsetInput.fromTxin, IssPsetInput.fromPrevout]
   cases t.isPegin <;> cases t.hasIssuance <;> simp
 
 /-- index hypothesis: a real index (below 2^30; 2^30-1 with both flags is not representable), or the
@@ -90,10 +90,10 @@ theorem or_flags_coinbase (p q : Bool) :
   cases p <;> cases q <;> decide
 
 theorem plainIndex_word (v : Nat) (p q : Bool) (h : IndexOk v p q) :
-    PsetInput.plainIndex ((v ||| (if p then 2^30 else 0)) ||| (if q then 2^31 else 0)) = v := by
+    IssPsetInput.plainIndex ((v ||| (if p then 2^30 else 0)) ||| (if q then 2^31 else 0)) = v := by
   rcases h with ⟨hv, hne⟩ | hc
   · obtain ⟨_, hmod, _, _, hcb⟩ := word_parts v hv p q _ rfl
-    simp only [PsetInput.plainIndex]
+    simp only [IssPsetInput.plainIndex]
     have : ¬ ((v ||| (if p then 2^30 else 0)) ||| (if q then 2^31 else 0)) = 0xffffffff := fun e => hne (hcb.1 e)
     rw [if_neg this, hmod]
   · subst hc
@@ -118,19 +118,19 @@ theorem isNull_iff (v : Value) : v.isNull = true ↔ v = .null := by
   cases v <;> simp [Value.isNull]
 
 theorem valueOf_split (v : Value) :
-    PsetInput.valueOf (match v with | .explicit x => some x | _ => none) (match v with | .conf c => some c | _ => none) = v := by
+    IssPsetInput.valueOf (match v with | .explicit x => some x | _ => none) (match v with | .conf c => some c | _ => none) = v := by
   cases v <;> rfl
 
 theorem fromTxin_nonce (t : TxIn) (h : IssuanceOk t) :
-    (PsetInput.fromTxin t).issuanceBlindingNonce.getD zero32 = t.assetIssuance.nonce := by
-  simp only [PsetInput.fromTxin, PsetInput.fromPrevout]
+    (IssPsetInput.fromTxin t).issuanceBlindingNonce.getD zero32 = t.assetIssuance.nonce := by
+  simp only [IssPsetInput.fromTxin, IssPsetInput.fromPrevout]
   rcases h with h | ⟨h1, _⟩
   · cases t.isPegin <;> simp [h]
   · cases t.isPegin <;> cases t.hasIssuance <;> simp [h1]
 
 theorem fromTxin_entropy (t : TxIn) (h : IssuanceOk t) :
-    (PsetInput.fromTxin t).issuanceAssetEntropy.getD zero32 = t.assetIssuance.entropy := by
-  simp only [PsetInput.fromTxin, PsetInput.fromPrevout]
+    (IssPsetInput.fromTxin t).issuanceAssetEntropy.getD zero32 = t.assetIssuance.entropy := by
+  simp only [IssPsetInput.fromTxin, IssPsetInput.fromPrevout]
   rcases h with h | ⟨_, h2⟩
   · cases t.isPegin <;> simp [h]
   · cases t.isPegin <;> cases t.hasIssuance <;> simp [h2]
@@ -141,62 +141,62 @@ theorem amounts_null_of_not_hasIssuance (t : TxIn) (h : t.hasIssuance = false) :
   exact ⟨(isNull_iff _).1 h.1, (isNull_iff _).1 h.2⟩
 
 theorem fromTxin_comm_isSome (t : TxIn) :
-    (PsetInput.fromTxin t).issuanceValueComm.isSome = t.assetIssuance.amount.isConf := by
-  simp only [PsetInput.fromTxin, PsetInput.fromPrevout]
+    (IssPsetInput.fromTxin t).issuanceValueComm.isSome = t.assetIssuance.amount.isConf := by
+  simp only [IssPsetInput.fromTxin, IssPsetInput.fromPrevout]
   cases hq : t.hasIssuance
   · have := (amounts_null_of_not_hasIssuance t hq).1
     cases t.isPegin <;> simp [this, Value.isConf]
   · cases t.isPegin <;> cases t.assetIssuance.amount <;> simp [Value.isConf]
 
 theorem fromTxin_amount (t : TxIn) :
-    PsetInput.valueOf (PsetInput.fromTxin t).issuanceValueAmount (PsetInput.fromTxin t).issuanceValueComm
+    IssPsetInput.valueOf (IssPsetInput.fromTxin t).issuanceValueAmount (IssPsetInput.fromTxin t).issuanceValueComm
       = t.assetIssuance.amount := by
-  simp only [PsetInput.fromTxin, PsetInput.fromPrevout]
+  simp only [IssPsetInput.fromTxin, IssPsetInput.fromPrevout]
   cases hq : t.hasIssuance
   · have := (amounts_null_of_not_hasIssuance t hq).1
-    cases t.isPegin <;> simp [this, PsetInput.valueOf]
+    cases t.isPegin <;> simp [this, IssPsetInput.valueOf]
   · cases t.isPegin <;> simp <;> cases t.assetIssuance.amount <;> rfl
 
 theorem fromTxin_keys (t : TxIn) :
-    PsetInput.valueOf (PsetInput.fromTxin t).issuanceInflationKeys (PsetInput.fromTxin t).issuanceInflationKeysComm
+    IssPsetInput.valueOf (IssPsetInput.fromTxin t).issuanceInflationKeys (IssPsetInput.fromTxin t).issuanceInflationKeysComm
       = t.assetIssuance.inflationKeys := by
-  simp only [PsetInput.fromTxin, PsetInput.fromPrevout]
+  simp only [IssPsetInput.fromTxin, IssPsetInput.fromPrevout]
   cases hq : t.hasIssuance
   · have := (amounts_null_of_not_hasIssuance t hq).2
-    cases t.isPegin <;> simp [this, PsetInput.valueOf]
+    cases t.isPegin <;> simp [this, IssPsetInput.valueOf]
   · cases t.isPegin <;> simp <;> cases t.assetIssuance.inflationKeys <;> rfl
 
 /-- `asset_issuance()` of the PSET input built from a TxIn gives the TxIn's issuance back -/
 theorem assetIssuance_fromTxin (t : TxIn) (h : IssuanceOk t) :
-    (PsetInput.fromTxin t).assetIssuance = t.assetIssuance := by
+    (IssPsetInput.fromTxin t).assetIssuance = t.assetIssuance := by
   have h1 := fromTxin_nonce t h
   have h2 := fromTxin_entropy t h
   have h3 := fromTxin_amount t
   have h4 := fromTxin_keys t
-  simp only [PsetInput.assetIssuance, h1, h2, h3, h4]
+  simp only [IssPsetInput.assetIssuance, h1, h2, h3, h4]
 
 theorem plainIndex_fromTxin (t : TxIn) (h : IndexOk t.previousOutput.vout t.isPegin t.hasIssuance) :
-    PsetInput.plainIndex (PsetInput.fromTxin t).previousOutputIndex = t.previousOutput.vout := by
+    IssPsetInput.plainIndex (IssPsetInput.fromTxin t).previousOutputIndex = t.previousOutput.vout := by
   rw [fromTxin_index]; exact plainIndex_word _ _ _ h
 
 /-- the outpoint and the issuance survive TxIn → PSET input → extracted TxIn -/
 theorem extract_fromTxin_core (t : TxIn) (h : IndexOk t.previousOutput.vout t.isPegin t.hasIssuance) (hi : IssuanceOk t) :
-    (PsetInput.extractIn (PsetInput.fromTxin t)).previousOutput = t.previousOutput ∧
-    (PsetInput.extractIn (PsetInput.fromTxin t)).assetIssuance = t.assetIssuance := by
+    (IssPsetInput.extractIn (IssPsetInput.fromTxin t)).previousOutput = t.previousOutput ∧
+    (IssPsetInput.extractIn (IssPsetInput.fromTxin t)).assetIssuance = t.assetIssuance := by
   refine ⟨?_, assetIssuance_fromTxin t hi⟩
-  simp only [PsetInput.extractIn, plainIndex_fromTxin t h, fromTxin_txid]
+  simp only [IssPsetInput.extractIn, plainIndex_fromTxin t h, fromTxin_txid]
 
 theorem txin_ids_congr (a b : TxIn) (h1 : a.previousOutput = b.previousOutput) (h2 : a.assetIssuance = b.assetIssuance) :
     a.issuanceIds H = b.issuanceIds H := by
   simp only [TxIn.issuanceIds, h1, h2]
 
 theorem ids_agree_pset (t : TxIn) (h : IndexOk t.previousOutput.vout t.isPegin t.hasIssuance) (hi : IssuanceOk t) :
-    (PsetInput.fromTxin t).issuanceIds H = t.issuanceIds H := by
+    (IssPsetInput.fromTxin t).issuanceIds H = t.issuanceIds H := by
   rw [pset_ids_eq, txin_ids_eq, fromTxin_nonce t hi, fromTxin_entropy t hi, fromTxin_comm_isSome,
     plainIndex_fromTxin t h, fromTxin_txid]
 
 theorem ids_agree_extract (t : TxIn) (h : IndexOk t.previousOutput.vout t.isPegin t.hasIssuance) (hi : IssuanceOk t) :
-    (PsetInput.extractIn (PsetInput.fromTxin t)).issuanceIds H = t.issuanceIds H := by
+    (IssPsetInput.extractIn (IssPsetInput.fromTxin t)).issuanceIds H = t.issuanceIds H := by
   obtain ⟨h1, h2⟩ := extract_fromTxin_core t h hi
   exact txin_ids_congr H _ _ h1 h2
 
@@ -204,17 +204,17 @@ theorem ids_agree_extract (t : TxIn) (h : IndexOk t.previousOutput.vout t.isPegi
 theorem extract_fromTxin_isPegin (t : TxIn)
     (h : (t.previousOutput.vout < 2^30 ∧ ¬ (t.previousOutput.vout = 2^30 - 1 ∧ t.isPegin = true ∧ t.hasIssuance = true)) ∨
          (t.previousOutput.vout = 0xffffffff ∧ t.isPegin = false)) :
-    (PsetInput.extractIn (PsetInput.fromTxin t)).isPegin = t.isPegin := by
-  simp only [PsetInput.extractIn, PsetInput.isPegin, fromTxin_index]
+    (IssPsetInput.extractIn (IssPsetInput.fromTxin t)).isPegin = t.isPegin := by
+  simp only [IssPsetInput.extractIn, IssPsetInput.isPegin, fromTxin_index]
   rcases h with ⟨hv, hne⟩ | ⟨hc, hp⟩
   · exact isPegin_word _ _ _ hv hne
   · rw [hc, or_flags_coinbase, hp]; rfl
 
 /-- an input without issuance: `from_txin` ignores whatever nonce / entropy it carries -/
 theorem fromTxin_no_issuance (t : TxIn) (hq : t.hasIssuance = false) :
-    PsetInput.fromTxin t = PsetInput.fromTxin { t with assetIssuance := AssetIssuance.null } := by
+    IssPsetInput.fromTxin t = IssPsetInput.fromTxin { t with assetIssuance := AssetIssuance.null } := by
   have hq' : ({ t with assetIssuance := AssetIssuance.null } : TxIn).hasIssuance = false := rfl
-  simp only [PsetInput.fromTxin, hq, hq']
+  simp only [IssPsetInput.fromTxin, hq, hq']
   rfl
 
 /-! ### canonical wire inputs satisfy the hypotheses -/
